@@ -30,9 +30,9 @@ def _new_out():
     return {"cov": {}, "samples": [], "violations": []}
 
 
-def _viol(out, sig, what, payload):
+def _viol(out, sig, what, payload, cap=MAX_VIOL_PER_TASK):
     out["cov"]["mismatches"] = out["cov"].get("mismatches", 0) + 1
-    if len(out["violations"]) < MAX_VIOL_PER_TASK:
+    if len(out["violations"]) < cap:
         out["violations"].append({"sig": sig, "what": what, "payload": payload})
 
 
@@ -300,8 +300,9 @@ class CrcSpec:
     words since the last start, and -- when crc_width = k * data_width -- the last <= k words with the register
     they started from, so that "message followed by its own CRC / by another trailer" is decided by comparing
     words with the reference trailer, never through a residue."""
-    def __init__(self, p, dw, with_reset=False, alphabet=None, name=None):
+    def __init__(self, p, dw, with_reset=False, alphabet=None, name=None, params_obj=None):
         self.p = tuple(p)
+        self.params_obj = params_obj        # build the Processor from this existing Parameters object (history family)
         self.dw, self.with_reset, self.name = dw, with_reset, name
         self.alphabet = list(alphabet) if alphabet is not None else None
         w = self.p[0]
@@ -329,7 +330,7 @@ class CrcSpec:
             algo = getattr(catalog, self.name)
         else:
             algo = _algo(self.p)
-        proc = algo(self.dw).create()
+        proc = (self.params_obj if self.params_obj is not None else algo(self.dw)).create()
         m = Module()
         cd = ClockDomain("sync")
         m.domains.sync = cd
@@ -562,6 +563,184 @@ def w_hw_catalog(task):
     return out
 
 
+# ------------------------------------------------------------------------------------------- history independence
+# A Parameters object is a value: every operation on it must give what the same operation gives on a fresh object
+# built from the same arguments, whatever was done with the object before.
+SEQ_OPS = ("compute", "residue", "algorithm", "create", "repr")
+SEQ_CATALOGUE = ("CRC16_IBM_SDLC", "CRC5_USB", "CRC32_ISO_HDLC", "CRC8_AUTOSAR")
+
+
+def seq_configs():
+    """(name or None, p or None, dw): widths 3/5/8/16 x the four reflection combinations x xor zero / all-ones /
+    asymmetric (odd asymmetric polynomial, asymmetric init) + catalogue entries; data width 8 and one that is not 8"""
+    base = {3: (0b011, 0b101, 0b011, 3), 5: (0x05, 0x0b, 0x0d, 5), 8: (0x2f, 0xa5, 0x35, 4), 16: (0x1021, 0x1d0f, 0x1234, 4)}
+    out = []
+    for w, (poly, init, asym, dw2) in base.items():
+        for refin in (False, True):
+            for refout in (False, True):
+                for xorout in (0, (1 << w) - 1, asym):
+                    for dw in (8, dw2):
+                        out.append((None, (w, poly, init, refin, refout, xorout), dw))
+    for name, dw2 in zip(SEQ_CATALOGUE, (4, 5, 4, 2)):      # (wide data words make the XOR network slow to compile)
+        for dw in (8, dw2):
+            out.append((name, None, dw))
+    return out
+
+
+def _seq_new(name, p, dw):
+    if name:
+        from amaranth.lib.crc import catalog
+        return getattr(catalog, name)(dw)
+    return _algo(p)(dw)
+
+
+def _seq_data(dw):
+    mask = (1 << dw) - 1
+    return (1, 0xb5 & mask, mask, 0x31 & mask)
+
+
+def _seq_hw_actions(p, dw):
+    """start+message, own trailer (valid codeword), idle; restart, same message, corrupted trailer, idle"""
+    w, poly, init, refin, refout, xorout = p
+    msg = _seq_data(dw)[:2]
+    acts = [(1, 1, msg[0], 0), (0, 1, msg[1], 0)]
+    if w % dw:
+        return acts + [(0, 0, 0, 0)]
+    c = R.crc(w, poly, init, refin, refout, xorout, dw, msg)
+    own = R.trailer_words(c, w, refin, refout, dw)
+    bad = R.trailer_words(c ^ 1, w, refin, refout, dw)
+    return (acts + [(0, 1, x, 0) for x in own] + [(0, 0, 0, 0)] + acts + [(0, 1, x, 0) for x in bad] + [(0, 0, 0, 0)])
+
+
+def _seq_simulate(params, name, p, dw, flags=None):
+    """params.create() in a short simulation -> (per-cycle (crc, match_detected), reference errors)"""
+    spec = CrcSpec(p, dw, False, [0], name, params_obj=params)      # the action alphabet is not used here
+    sysm = spec.build()
+    box = {}
+
+    def body(ctx):
+        sysm.ctx = ctx
+        m = spec.model_init(sysm)
+        obs, errs = [], []
+        for i, a in enumerate(_seq_hw_actions(p, dw)):
+            obs.append((ctx.get(spec.proc.crc), ctx.get(spec.proc.match_detected)))
+            m, e, f = spec.step(sysm, m, a)
+            if flags is not None:
+                flags.update(f)
+            errs += [f"cycle {i}: {x}" for x in e]
+        box["r"] = (tuple(obs), tuple(errs))
+    run_in_testbench(sysm.frag, body)
+    return box["r"]
+
+
+def _seq_op(op, params, name, p, dw, simulate=True, flags=None):
+    try:
+        if op == "compute":
+            return params.compute(_seq_data(dw))
+        if op == "residue":
+            return params.residue()
+        if op == "algorithm":
+            a = params.algorithm
+            return (a.crc_width, a.polynomial, a.initial_crc, a.reflect_input, a.reflect_output, a.xor_output)
+        if op == "repr":
+            return repr(params)
+        if op == "create":
+            if simulate:
+                return _seq_simulate(params, name, p, dw, flags)
+            params.create()
+            return None
+    except Exception as e:
+        return ("exc", type(e).__name__)
+    raise ValueError(op)
+
+
+def seq_fresh(name, p, dw, flags=None):
+    """result of every operation on its own fresh Parameters object + comparison with the reference"""
+    fresh, bad = {}, []
+    for op in SEQ_OPS:
+        fresh[op] = _seq_op(op, _seq_new(name, p, dw), name, p, dw, True, flags)
+    w, poly, init, refin, refout, xorout = p
+    want = R.crc(w, poly, init, refin, refout, xorout, dw, _seq_data(dw))
+    if fresh["compute"] != want:
+        bad.append(("compute", fresh["compute"], want))
+    want = R.residue_after(w, poly, init, refin, refout, xorout, dw, [1])
+    if fresh["residue"] != want:
+        bad.append(("residue", fresh["residue"], want))
+    if fresh["algorithm"] != tuple(p):
+        bad.append(("algorithm", fresh["algorithm"], tuple(p)))
+    if not isinstance(fresh["create"], tuple) or len(fresh["create"]) != 2 or fresh["create"][1]:
+        bad.append(("create", fresh["create"], "crc / match_detected as in the bit-serial model"))
+    if not isinstance(fresh["repr"], str):
+        bad.append(("repr", fresh["repr"], "a string"))
+    return fresh, bad
+
+
+def seq_run(name, p, dw, ops, fresh, flags=None, counters=None):
+    """run one operation sequence on ONE Parameters object -> first (position, op, got, want) that differs, or None.
+    The first operation acts on a fresh object by construction, so it is performed but not compared."""
+    params = _seq_new(name, p, dw)
+    for i, op in enumerate(ops):
+        got = _seq_op(op, params, name, p, dw, simulate=i > 0, flags=flags)
+        if counters is not None:
+            counters["seq_operations"] += 1
+            counters["seq_hw_simulations"] += (op == "create" and i > 0)
+        if i > 0 and got != fresh[op]:
+            return (i, op, got, fresh[op])
+    return None
+
+
+def _is_subsequence(short, long):
+    it = iter(long)
+    return all(x in it for x in short)
+
+
+def _seq_tag(name, p, dw):
+    return f"seq:{'catalog.' + name if name else _ptag(p)}/dw{dw}"
+
+
+def _short(x):
+    r = repr(x)
+    return r if len(r) <= 240 else r[:240] + "..."
+
+
+def w_seq(task):
+    cfgs, maxlen = task
+    out = _new_out()
+    cov = out["cov"]
+    for k in ("seq_configurations", "seq_sequences", "seq_operations", "seq_hw_simulations", "seq_later_ops_compared"):
+        cov[k] = 0
+    flags = set()
+    for name, p, dw in cfgs:
+        if name:
+            p = cat_params(name)
+        cov["seq_configurations"] += 1
+        fresh, bad = seq_fresh(name, p, dw, flags)
+        cov["seq_hw_simulations"] += 1
+        tag = _seq_tag(name, p, dw)
+        failed = []         # minimal failing sequences; longer ones containing one of them are only counted
+        for op, got, want in bad:
+            _viol(out, f"{tag}:fresh:{op}", f"{tag}: {op} on a fresh Parameters object = {_short(got)}, want {_short(want)}",
+                  {"kind": "seq", "name": name, "p": list(p), "dw": dw, "ops": [op]})
+        for n in range(1, maxlen + 1):
+            for ops in itertools.product(SEQ_OPS, repeat=n):
+                cov["seq_sequences"] += 1
+                cov["seq_later_ops_compared"] += n - 1
+                r = seq_run(name, p, dw, ops, fresh, flags, cov)
+                if r is not None:
+                    i, op, got, want = r
+                    bad_seq = tuple(ops[:i + 1])
+                    if any(_is_subsequence(f, bad_seq) for f in failed):
+                        cov["seq_failures_implied_by_shorter_ones"] = cov.get("seq_failures_implied_by_shorter_ones", 0) + 1
+                        continue
+                    failed.append(bad_seq)
+                    _viol(out, f"{tag}:{'>'.join(ops[:i + 1])}",
+                          f"{tag}: on one Parameters object, after {list(ops[:i])} the operation {op} gives {_short(got)}; "
+                          f"on a fresh object built from the same arguments it gives {_short(want)}",
+                          {"kind": "seq", "name": name, "p": list(p), "dw": dw, "ops": list(ops[:i + 1])}, cap=10)
+    out["flags"] = sorted("seq_" + f for f in flags)
+    return out
+
+
 # ------------------------------------------------------------------------------------------- plan
 def hw_small_configs(rep):
     """(p, dw, with_reset) for every small parameter set"""
@@ -594,7 +773,8 @@ def hw_small_configs(rep):
 
 def _dispatch(t):
     kind, arg = t
-    return kind, {"sw_small": w_sw_small, "sw_cat": w_sw_catalog, "hw_small": w_hw_small, "hw_cat": w_hw_catalog}[kind](arg)
+    return kind, {"sw_small": w_sw_small, "sw_cat": w_sw_catalog, "hw_small": w_hw_small, "hw_cat": w_hw_catalog,
+                  "seq": w_seq}[kind](arg)
 
 
 def run(rep):
@@ -659,6 +839,13 @@ def run(rep):
     for ch in chunks(items, 3):
         tasks.append(("hw_cat", (ch, rep.pick(3, 4))))
     rep.setcov("catalogue_distinct_algorithms", len(uniq))
+    # ---- history independence of one Parameters object
+    seq_len = rep.pick(3, 4)
+    for c in seq_configs():
+        tasks.append(("seq", ([c], seq_len)))
+    rep.setcov("seq_rule", f"every sequence of length <= {seq_len} over {list(SEQ_OPS)} on ONE Parameters object; each operation after the "
+               "first must give the result of the same operation on a fresh Parameters object (which itself must agree with the "
+               "bit-serial model); create = short simulation of crc / match_detected on a valid and a corrupted codeword")
 
     flags = set()
     for kind, part in pmap(_dispatch, rotate(tasks, rep.seed), rep.procs):
@@ -688,6 +875,10 @@ def run(rep):
     for f in need:
         rep.require(f in flags, f"flag {f} never observed")
     rep.require(rep.cov.get("sw_evaluations", 0) > 0 and rep.cov.get("sw_nontrivial", 0) >= 2, "software enumeration ran")
+    for f in ("seq_own_trailer", "seq_other_trailer", "seq_match1", "seq_match0"):
+        rep.require(f in flags, f"flag {f} never observed")
+    rep.require(rep.cov.get("seq_hw_simulations", 0) > rep.cov.get("seq_configurations", 0) > 0 and
+                rep.cov.get("seq_later_ops_compared", 0) > 0, "operation sequences with a later create() were simulated")
     for kind in CONTAINER_KINDS:
         rep.require(rep.cov.get("sw_sequences_as_" + kind, 0) > 0, f"word sequences handed to compute() as {kind}")
     rep.require(rep.cov.get("sw_bytes_refin_non_octet_evaluations", 0) > 0, "bytes/bytearray input with reflect_input and data_width != 8")
@@ -710,6 +901,15 @@ def replay(payload):
     if kind == "cat":
         return [f"{k}: got {g}, want {w}" for k, g, w in
                 cat_case(payload["name"], payload["dw"], payload["what"], payload.get("seq"))]
+    if kind == "seq":
+        name, dw, ops = payload.get("name"), payload["dw"], payload["ops"]
+        p = cat_params(name) if name else tuple(payload["p"])
+        fresh, bad = seq_fresh(name, p, dw)
+        res = [f"fresh {op}: got {_short(g)}, want {_short(w)}" for op, g, w in bad if op in ops]
+        r = seq_run(name, p, dw, ops, fresh)
+        if r is not None:
+            res.append(f"after {ops[:r[0]]} on the same Parameters object, {r[1]} gives {_short(r[2])}, a fresh object gives {_short(r[3])}")
+        return res
     if kind in ("hw", "hw_trace"):
         spec = CrcSpec.from_cfg(payload["cfg"])
         tr = run_trace(spec, [tuple(a) for a in payload["path"]])
